@@ -820,9 +820,19 @@ func (c *grammarClient) Return(e *Engine, st *State, ret *ast.ReturnStmt) {
 	if ret != nil && len(ret.Results) > 0 {
 		last := ret.Results[len(ret.Results)-1]
 		if TypeStr(e.Info.TypeOf(last)) == "error" && !isNilIdent(e.Info, last) {
-			// `return writeExpression(...)`: the callee's success/failure decides; treat as a success exit too
-			if _, isCall := ast.Unparen(last).(*ast.CallExpr); !isCall {
+			// `return writeExpression(...)`: the callee's success/failure decides; treat as a success exit too -
+			// unless the callee was interpreted in place and this path is known to carry its error
+			call, isCall := ast.Unparen(last).(*ast.CallExpr)
+			if !isCall {
 				return
+			}
+			if ids, inPlace := e.inlined[call]; inPlace && len(ids) > 0 {
+				if f := st.Get(e.objKey(e.Info.Defs[ids[len(ids)-1]])); f != nil && f.Nil == 2 {
+					return
+				}
+				if e.NonNil(st, ids[len(ids)-1]) {
+					return
+				}
 			}
 		}
 	}
